@@ -7,6 +7,7 @@ From Coq Require Import String Sorting.Sorted.
 From AV Require Import Lib.Base H1.Encoder H1.RespSpec H1.RespSeq H1.EncoderProofs H1.RespSeqProofs.
 From AV Require Import H1.RespAbortProofs H1.Flush H1.FlushProofs H1.RespWire H1.RespWireProofs.
 From AV Require Import Gen.H1EncoderTables H1.EncoderGenProofs.
+From AV Require Import H1.UpgradeSeq H1.UpgradeProofs H1.UpgradeGenProofs.
 Open Scope N_scope.
 
 (* ------------------------------------------------------------------ body-faithful, self-framed *)
@@ -337,6 +338,72 @@ Proof.
   split; [intro v; pose proof (version_rules_match v); tauto|].
   split; [intros s Hs; apply Bool.eqb_prop; exact (forallb_statuses _ hdr_retain_status_matches s Hs)|].
   apply stream_rule_matches.
+Qed.
+
+(* ------------------------------------------------------------------ upgrade hand-off *)
+(* Model H1/UpgradeSeq.v: the sequencing + flush model extended with DispatcherMessage::Upgrade,
+   PollResponse::Upgrade and InnerDispatcher::upgrade().  For every schedule of request arrivals
+   (k ordinary requests, then the upgrade request, in any interleaving with the other events),
+   handler/body polls and socket behaviours (partial writes, Pending): when the dispatcher hands
+   the connection to the upgrade service,
+     (bytes the socket has accepted) ++ (write_buf moved into the FramedParts)
+   is exactly the concatenation of the response units in dispatch order -- one response per
+   dispatched request, in request order, never interleaved (well_sequenced) -- so no response
+   to a request in front of the upgrade request is dropped and every byte of them precedes
+   whatever the upgrade service writes through the Framed; no response is in flight, no request
+   queued, the connection has not failed; io is handed over, read_buf arrives as the decoder left
+   it and the codec carries the context of the upgrade request. *)
+Theorem C02_upgrade_handoff_nothing_dropped :
+  forall (reqs : list reqctx) (hs : list hscript) (wbs : N) (ka : bool) (ues : list uevent) (h : handoff),
+  uarr_ok O ues ->
+  let u := urun reqs hs wbs (uinit ka) ues in
+  u_ho u = Some h ->
+  let d := w_d (u_w u) in let fs := w_f (u_w u) in
+  s_wire fs ++ p_write_buf (ho_parts h) = units_bytes (d_out d) /\
+  well_sequenced (d_out d) /\
+  (forall j hd, In (UHead (Some j) hd) (d_out d) -> In j (d_started d)) /\
+  StronglySorted lt (d_started d) /\
+  d_st d = SNone /\ d_msgs d = [] /\ d_fail d = None /\ s_failed fs = false /\
+  p_io (ho_parts h) = true /\
+  u_upg u = Some (ho_req h, p_read_buf (ho_parts h)) /\
+  current_context (p_codec (ho_parts h)) = request_context (d_codec d) (req_of reqs (ho_req h)).
+Proof. exact handoff_nothing_dropped. Qed.
+
+(* after the hand-off the dispatcher is gone: whatever events follow, nothing is appended,
+   flushed, dispatched or handed over a second time *)
+Theorem C02_upgrade_after_handoff_frozen :
+  forall (reqs : list reqctx) (hs : list hscript) (wbs : N) (es : list uevent) (u : ustate) (h : handoff),
+  u_ho u = Some h ->
+  u_w (urun reqs hs wbs u es) = u_w u /\ u_upg (urun reqs hs wbs u es) = u_upg u /\
+  exists k, u_ho (urun reqs hs wbs u es) = Some (mkHO (ho_req h) (ho_parts h) k).
+Proof. intros reqs hs wbs es u h. apply after_handoff_frozen. Qed.
+
+(* the fields the model moves into the FramedParts are the ones the source moves (statement
+   list of fn upgrade read by tools/gen/h1_encoder.py): io, codec, read_buf, write_buf *)
+Theorem C02_upgrade_moves_match_source :
+  map ufield_code upgrade_moves = H1DISP_UPGRADE_MOVES /\
+  forall c rb wb, upgrade_parts upgrade_moves c rb wb =
+    mkParts (moved_code MvIo H1DISP_UPGRADE_MOVES)
+            (if moved_code MvCodec H1DISP_UPGRADE_MOVES then c else codec_new true)
+            (if moved_code MvReadBuf H1DISP_UPGRADE_MOVES then rb else [])
+            (if moved_code MvWriteBuf H1DISP_UPGRADE_MOVES then wb else []).
+Proof. split; [exact upgrade_moves_match|exact upgrade_parts_from_source]. Qed.
+
+(* non-vacuity: GET with a pending handler, the websocket handshake decoded meanwhile and queued;
+   nothing flushed: the whole response travels in the handed-over write_buf *)
+Example C02_upgrade_example :
+  let reqs := [mkReq false V11 None false false; mkReq false V11 (Some CUpgrade) true false] in
+  let hs := [mkH 1 false (mkResp 200 None false []) KPlain (BSized 2) [BChunk [97; 98]]] in
+  let es := [UEv (WArrive 0); UUpg 1 [129; 0]; UEv WTick; UEv WTick; UEv WTick; UEv WTick] in
+  let u := urun reqs hs 32768 (uinit true) es in
+  uarr_ok O es /\
+  exists h, u_ho u = Some h /\ ho_req h = 1%nat /\ s_wire (w_f (u_w u)) = [] /\
+            lenN (p_write_buf (ho_parts h)) = lenN (units_bytes (d_out (w_d (u_w u)))) /\
+            p_write_buf (ho_parts h) <> [] /\ p_read_buf (ho_parts h) = [129; 0] /\
+            d_started (w_d (u_w u)) = [O].
+Proof.
+  cbv zeta. split; [cbn; tauto|]. eexists. split; [vm_compute; reflexivity|].
+  vm_compute. repeat split; discriminate.
 Qed.
 
 (* ------------------------------------------------------------------ non-vacuity *)
